@@ -14,7 +14,7 @@ import re
 
 from common import Rule, V, finish
 from mirlib import ENTRY_POINTS, short_path, op_const, op_place
-from rulelib import is_fs_mut, strip_generics, blocks_reachable_from
+from rulelib import is_fs_mut, strip_generics, blocks_reachable_from, is_cache_check
 from unord import Unord
 
 PROP = "C14"
@@ -79,7 +79,7 @@ def check(ctx):
               "a digest that depends on hash-iteration order differs between identical runs, so an unchanged project is regenerated (files rewritten, watchers fire)")
     if CACHE_NEW not in P.fns:
         r1.bad(V(r1.id, "<anchor>", "missing:GenerationCache::new", "anchor not found"))
-    hscope = P.reachable([CACHE_NEW])
+    hscope = P.reachable([k for k in P.fns if k.startswith(CACHE_NEW) and "{" not in k])
     for s in U.sites([P.fns[x] for x in sorted(hscope)]):
         if s.kind in ("erased", "sorted", "scalar"):
             r1.ok("%s: %s over %s — %s" % (short_path(s.fn.id), s.call.name, s.source, s.why))
@@ -133,10 +133,10 @@ def check(ctx):
     nr_fns = []
     for fid in sorted(reach):
         f = P.fns[fid]
-        if any(is_call_to(c, NR) for c in f.calls):
+        if any(is_cache_check(c) for c in f.calls) and not fid.startswith("tauri_typegen::build::generation_cache::"):
             nr_fns.append(f)
     for f in nr_fns:
-        nr = [c for c in f.calls if is_call_to(c, NR)][0]
+        nr = [c for c in f.calls if is_cache_check(c)][0]
         # hit region: branch edges whose switched value derives from the NR call with outcome false
         hit_blocks = set()
         for (a, lab, (o, outcome)) in f.branch_edges():
